@@ -61,11 +61,15 @@ class Ctx:
             r = subprocess.run([os.path.join(ROOT, "bin", "tlcrun"), str(workers), cfg, tla, "-coverage", "1", *extra],
                                stdout=f, stderr=subprocess.STDOUT, timeout=timeout)
         cases, states, gen, ok = [], 0, 0, False
+        self.hcases = []
         err = []
         for line in open(out, errors="replace"):
             if line.startswith('<<"CASE", '):
                 inner = line.strip()[len('<<"CASE", '):-2]
                 cases.append(json.loads(json.loads(inner)))
+            elif line.startswith('<<"HCASE", '):
+                inner = line.strip()[len('<<"HCASE", '):-2]
+                self.hcases.append(json.loads(json.loads(inner)))
             elif "Model checking completed. No error has been found." in line:
                 ok = True
             elif m := re.match(r"(\d+) states generated, (\d+) distinct states found", line):
